@@ -150,6 +150,9 @@ fn hostile_set() -> Vec<(RSchema, Option<&'static TypedTarget>)> {
 		// a nested array the target has no field for, in front of a field it keeps
 		(S::record("h.Skip", vec![("skipped", S::array(S::array(S::Int))), ("kept", S::Int)]), Some(&T_KEPT)),
 		(S::record("h.Skip3", vec![("skipped", S::array(S::array(S::array(S::Null)))), ("kept", S::Int)]), Some(&T_KEPT)),
+		// zero-byte items the target has no field for: their number must still be capped by max_seq_size
+		(S::record("h.SkipN", vec![("skipped", S::array(S::Null)), ("kept", S::Int)]), Some(&T_KEPT)),
+		(S::record("h.SkipM", vec![("skipped", S::map(S::Null)), ("kept", S::Int)]), Some(&T_KEPT)),
 	]
 }
 
@@ -320,6 +323,145 @@ fn model_of(u: &Unit, env: &Env, bytes: &[u8]) -> Model {
 }
 
 // ---------------------------------------------------------------------------------------------
+// Per-decode horizon inside the worker
+
+/// exit code of a worker that killed itself because one decode exceeded its CPU horizon
+const EXIT_TIMEOUT: i32 = 17;
+/// CPU seconds a single decode of the sweep may burn before the worker gives up on it (inputs are
+/// <= 12 bytes and max_seq_size <= 1000: a correct decoder needs microseconds)
+const DECODE_CPU_HORIZON_S: f64 = 2.0;
+/// wall seconds (a decode that blocks without burning CPU)
+const DECODE_WALL_HORIZON_S: f64 = 180.0;
+/// a decode that returned, but only after this much CPU time, is reported as `work-not-bounded`
+const DECODE_SLOW_CPU_S: f64 = 0.05;
+
+mod watchdog {
+	use std::sync::Mutex;
+	use std::time::Instant;
+
+	/// The decode in flight, in a form the watchdog thread can print without help.
+	pub struct Slot {
+		pub active: bool,
+		pub seq: u64,
+		pub started: Option<Instant>,
+		pub len: usize,
+		pub bytes: [u8; 16],
+		pub target: u8,
+		pub path: u8,
+		pub limits: (usize, usize, usize),
+		/// seeds worker: index of the seed
+		pub seed: usize,
+		pub cpu_horizon_s: f64,
+	}
+	pub static SLOT: Mutex<Slot> = Mutex::new(Slot { active: false, seq: 0, started: None, len: 0, bytes: [0; 16], target: 0, path: 0, limits: (0, 0, 0), seed: 0, cpu_horizon_s: 4.0 });
+
+	pub fn process_cpu_s() -> f64 {
+		let mut ts = libc::timespec { tv_sec: 0, tv_nsec: 0 };
+		unsafe { libc::clock_gettime(libc::CLOCK_PROCESS_CPUTIME_ID, &mut ts) };
+		ts.tv_sec as f64 + ts.tv_nsec as f64 * 1e-9
+	}
+	pub fn thread_cpu_s() -> f64 {
+		let mut ts = libc::timespec { tv_sec: 0, tv_nsec: 0 };
+		unsafe { libc::clock_gettime(libc::CLOCK_THREAD_CPUTIME_ID, &mut ts) };
+		ts.tv_sec as f64 + ts.tv_nsec as f64 * 1e-9
+	}
+
+	pub fn begin_node(bytes: &[u8], target: u8, path: u8, limits: (usize, usize, usize), cpu_horizon_s: f64) {
+		let mut s = SLOT.lock().unwrap();
+		s.active = true;
+		s.seq += 1;
+		s.started = Some(Instant::now());
+		s.len = bytes.len().min(16);
+		let n = s.len;
+		s.bytes[..n].copy_from_slice(&bytes[..n]);
+		s.target = target;
+		s.path = path;
+		s.limits = limits;
+		s.cpu_horizon_s = cpu_horizon_s;
+	}
+	pub fn begin_seed(seed: usize, cpu_horizon_s: f64) {
+		let mut s = SLOT.lock().unwrap();
+		s.active = true;
+		s.seq += 1;
+		s.started = Some(Instant::now());
+		s.seed = seed;
+		s.cpu_horizon_s = cpu_horizon_s;
+	}
+	pub fn end() {
+		SLOT.lock().unwrap().active = false;
+	}
+
+	/// Spawns the watchdog thread: when the decode in flight has burnt more CPU than its horizon
+	/// (or has blocked for the wall horizon) it prints `T <json>` and ends the process.
+	pub fn start(wall_horizon_s: f64, exit_code: i32) {
+		std::thread::spawn(move || {
+			// (sequence number under observation, process CPU when first seen)
+			let mut watching: Option<(u64, f64)> = None;
+			loop {
+				std::thread::sleep(std::time::Duration::from_millis(100));
+				let s = SLOT.lock().unwrap();
+				if !s.active {
+					watching = None;
+					continue;
+				}
+				let age = s.started.map_or(0.0, |t| t.elapsed().as_secs_f64());
+				if age < 0.3 {
+					continue;
+				}
+				let cpu = process_cpu_s();
+				let cpu0 = match watching {
+					Some(w) if w.0 == s.seq => w.1,
+					_ => {
+						watching = Some((s.seq, cpu));
+						cpu
+					}
+				};
+				if cpu - cpu0 >= s.cpu_horizon_s || age >= wall_horizon_s {
+					let hex: Vec<String> = s.bytes[..s.len].iter().map(|b| format!("{b:02x}")).collect();
+					println!(
+						"T {{\"bytes\":\"{}\",\"target\":{},\"path\":{},\"limits\":[{},{},{}],\"seed\":{},\"cpu_s\":{:.1},\"wall_s\":{:.1}}}",
+						hex.join(" "),
+						s.target,
+						s.path,
+						s.limits.0,
+						s.limits.1,
+						s.limits.2,
+						s.seed,
+						cpu - cpu0,
+						age
+					);
+					unsafe { libc::_exit(exit_code) };
+				}
+			}
+		});
+	}
+}
+
+fn target_code(t: &Target) -> u8 {
+	match t {
+		Target::Obs(Hint::Any) => 0,
+		Target::Obs(Hint::Ignored) => 1,
+		Target::Fold => 2,
+		Target::Typed(_) => 3,
+		Target::Obs(_) => 4,
+	}
+}
+fn path_code(p: Path) -> u8 {
+	match p {
+		Path::Slice => 0,
+		Path::Reader1 => 1,
+		Path::ReaderWhole => 2,
+	}
+}
+fn path_of_code(c: u64) -> Path {
+	match c {
+		0 => Path::Slice,
+		1 => Path::Reader1,
+		_ => Path::ReaderWhole,
+	}
+}
+
+// ---------------------------------------------------------------------------------------------
 // One decode, judged
 
 /// memory constant: error values, small bookkeeping
@@ -473,7 +615,12 @@ fn run_unit(u: &Unit, p: &Params, trace: bool) -> UnitOut {
 	let cap = if u.hostile { p.cap_hostile } else { p.cap_sigma };
 	let mut per_class: std::collections::BTreeMap<String, usize> = Default::default();
 	let mut stopped_early = false;
+	let mut slow_decodes = 0u32;
 	let tree = consumption_tree(p.max_len, cap, |bytes| {
+		if stopped_early {
+			// (the rest of the current frontier is not decoded any more)
+			return Expand::No;
+		}
 		let m = model_of(u, &env, bytes);
 		let mut expand = Expand::No;
 		let mut any_limit = false;
@@ -481,12 +628,30 @@ fn run_unit(u: &Unit, p: &Params, trace: bool) -> UnitOut {
 			if trace {
 				println!("S {} | {} | {} | {}", hex(bytes), t.name(), path.name(), cfg.json());
 			}
-			let j = judge(&cs, bytes, &m, cfg, path, t);
+			watchdog::begin_node(bytes, target_code(t), path_code(path), (cfg.depth, cfg.seq, cfg.alloc), DECODE_CPU_HORIZON_S);
+			let t0 = Instant::now();
+			let mut j = judge(&cs, bytes, &m, cfg, path, t);
+			watchdog::end();
 			out.cover.impl_runs += 1;
+			if t0.elapsed().as_secs_f64() > DECODE_SLOW_CPU_S {
+				// it came back, but slowly: measure the CPU it needs (wall time alone may be the machine's load)
+				let c0 = watchdog::thread_cpu_s();
+				watchdog::begin_node(bytes, target_code(t), path_code(path), (cfg.depth, cfg.seq, cfg.alloc), DECODE_CPU_HORIZON_S);
+				let _ = judge(&cs, bytes, &m, cfg, path, t);
+				watchdog::end();
+				let cpu = watchdog::thread_cpu_s() - c0;
+				if cpu > DECODE_SLOW_CPU_S {
+					j.violations.retain(|v| v.0 != "work-not-bounded");
+					j.violations.push(("work-not-bounded".into(), format!("the decode of {} input bytes under max_seq_size {} burnt {:.2} s of CPU: work dictated by numbers written in the input, not by its length and the limits", bytes.len(), cfg.seq, cpu)));
+					slow_decodes += 1;
+				}
+			}
 			if !j.violations.is_empty() {
 				// determinism guard: a violation must reproduce before it is reported
+				watchdog::begin_node(bytes, target_code(t), path_code(path), (cfg.depth, cfg.seq, cfg.alloc), DECODE_CPU_HORIZON_S);
 				let again = judge(&cs, bytes, &m, cfg, path, t);
-				let a: Vec<&String> = j.violations.iter().map(|v| &v.0).collect();
+				watchdog::end();
+				let a: Vec<&String> = j.violations.iter().map(|v| &v.0).filter(|c| *c != "work-not-bounded").collect();
 				let b: Vec<&String> = again.violations.iter().map(|v| &v.0).collect();
 				if a != b {
 					eprintln!("MACHINERY: C04 nondeterministic verdict for bytes [{}]: {a:?} then {b:?}", hex(bytes));
@@ -497,11 +662,14 @@ fn run_unit(u: &Unit, p: &Params, trace: bool) -> UnitOut {
 				let n = per_class.entry(class.clone()).or_insert(0);
 				*n += 1;
 				if *n <= 20 {
-					out.violations.push(Violation {
+					let v = Violation {
 						class: class.clone(),
 						what: format!("schema {text} bytes [{}] target {} path {} limits {}: {msg}", hex(bytes), t.name(), path.name(), cfg.json()),
 						replay: json!({"check": "C04", "kind": "node", "unit": u.id, "schema": text, "bytes": hex(bytes), "target": t.name(), "path": path.name(), "limits": cfg.json(), "class": class}),
-					});
+					};
+					// streamed at once, so that it survives a worker that is killed later on
+					println!("V {}", json!({"class": v.class, "what": v.what, "replay": v.replay}));
+					out.violations.push(v);
 				}
 			}
 			if j.calls > 0 && !bytes.is_empty() {
@@ -578,7 +746,7 @@ fn run_unit(u: &Unit, p: &Params, trace: bool) -> UnitOut {
 			out.nontrivial += 1;
 		}
 		out.cover.outcomes.insert(hash64(&(m.valid.is_some(), any_limit, &sig, expand != Expand::No)));
-		if per_class.values().sum::<usize>() >= 200 {
+		if per_class.values().sum::<usize>() >= 200 || slow_decodes >= 6 {
 			// enough evidence: do not keep paying for a broken decoder (huge allocations, long loops)
 			if !stopped_early {
 				out.cover.caps.push(format!("unit {} schema {text}: stopped after {} violating decodes", u.id, per_class.values().sum::<usize>()));
@@ -772,6 +940,44 @@ fn seeds(thorough: bool) -> Vec<Seed> {
 			}
 		}
 	}
+	// sequences the target ignores are capped by max_seq_size like visited ones (unsized blocks)
+	{
+		let skipn = S::record("s.SkipN", vec![("skipped", S::array(S::Null)), ("kept", S::Int)]);
+		let skipm = S::record("s.SkipM", vec![("skipped", S::map(S::Int)), ("kept", S::Int)]);
+		let kept_hint = || Target::Obs(Hint::Struct("Skip", vec![("kept", Hint::I32)]));
+		for (cap, counts) in [(3usize, vec![4i64, 5]), (1000, vec![1001, 1 << 40])] {
+			let l = Limits { allowed_depth: None, max_seq_size: Some(cap), max_alloc_size: Some(64) };
+			for count in counts {
+				let name: &'static str = if count == 1 << 40 { "2^40 zero-byte elements in an unsized block under max_seq_size 1000" } else { "unsized block with a count just above max_seq_size" };
+				let mut b = varint(count);
+				b.extend(varint(0));
+				for path in [Path::Slice, Path::Reader1] {
+					for t in [Target::Obs(Hint::Ignored), Target::Fold, Target::Obs(Hint::Any)] {
+						out.push(Seed { name, schema: S::array(S::Null), bytes: b.clone(), limits: l.clone(), path, target: t, must_err: true, mem_bound: Some(K_MEM + 64) });
+					}
+					let mut rb = b.clone();
+					rb.push(0x0e);
+					for t in [Target::Typed(&T_KEPT), kept_hint(), Target::Obs(Hint::Ignored)] {
+						out.push(Seed { name, schema: skipn.clone(), bytes: rb.clone(), limits: l.clone(), path, target: t, must_err: true, mem_bound: Some(K_MEM + 64) });
+					}
+				}
+			}
+			// a map with one entry too many, two unsized blocks: (cap) + 1 entries of ("", 0)
+			if cap == 3 {
+				let mut b = varint(3);
+				for _ in 0..3 {
+					b.extend([0x00, 0x00]);
+				}
+				b.extend(varint(1));
+				b.extend([0x00, 0x00]);
+				b.extend(varint(0));
+				b.push(0x0e);
+				for t in [Target::Typed(&T_KEPT), kept_hint(), Target::Obs(Hint::Ignored), Target::Fold] {
+					out.push(Seed { name: "ignored map, 3+1 entries in two unsized blocks under max_seq_size 3", schema: skipm.clone(), bytes: b.clone(), limits: l.clone(), path: Path::Slice, target: t, must_err: true, mem_bound: Some(K_MEM + 64) });
+				}
+			}
+		}
+	}
 	// a nested array that the target ignores (no such field / IgnoredAny) is charged like a visited one
 	{
 		let skip = S::record("s.Skip", vec![("skipped", S::array(S::array(S::array(S::array(S::Int))))), ("kept", S::Int)]);
@@ -842,6 +1048,18 @@ fn seed_what(s: &Seed) -> String {
 	format!("seed '{}': schema {} bytes [{}] target {} path {} limits {}", s.name, crate::report::truncate(&gen::schema_text(&s.schema), 200), b, s.target.name(), s.path.name(), limits_json(&s.limits))
 }
 
+/// CPU seconds a seed may take: the seeds that legitimately walk 10^9 zero-byte elements (allowed by
+/// the default max_seq_size) get minutes, everything else must answer at once.
+fn seed_cpu_budget_s(s: &Seed) -> f64 {
+	// (a first block of 6*10^8 elements is walked before the second block's header exceeds the cap)
+	let walks_up_to_the_default_cap = s.name.contains("under max_seq_size 10^9") && !s.name.contains("10^9+1");
+	if walks_up_to_the_default_cap {
+		240.0
+	} else {
+		3.0
+	}
+}
+
 /// Runs one seed; returns violations (class, message).
 fn run_seed(s: &Seed) -> (Vec<(String, String)>, &'static str) {
 	let cs = match gen::to_crate_schema(&s.schema) {
@@ -884,6 +1102,7 @@ pub fn worker(args: &[String]) -> i32 {
 		let lim = libc::rlimit { rlim_cur: 6 << 30, rlim_max: 6 << 30 };
 		libc::setrlimit(libc::RLIMIT_AS, &lim);
 	}
+	watchdog::start(DECODE_WALL_HORIZON_S, EXIT_TIMEOUT);
 	match args.first().map(|s| s.as_str()) {
 		Some("unit") => {
 			let thorough = args[1] == "thorough";
@@ -897,9 +1116,16 @@ pub fn worker(args: &[String]) -> i32 {
 		Some("seeds") => {
 			let thorough = args[1] == "thorough";
 			let from: usize = args.get(2).and_then(|s| s.parse().ok()).unwrap_or(0);
+			let lane: usize = args.get(3).and_then(|s| s.parse().ok()).unwrap_or(0);
+			let lanes: usize = args.get(4).and_then(|s| s.parse().ok()).unwrap_or(1);
 			for (i, s) in seeds(thorough).iter().enumerate().skip(from) {
+				if i % lanes != lane {
+					continue;
+				}
 				println!("S {i}");
+				watchdog::begin_seed(i, seed_cpu_budget_s(s));
 				let (v, kind) = run_seed(s);
+				watchdog::end();
 				println!("D {i} {}", json!({"kind": kind, "violations": v}));
 			}
 			0
@@ -912,7 +1138,9 @@ pub fn worker(args: &[String]) -> i32 {
 		}
 		Some("case") => {
 			let r: Value = serde_json::from_str(&args[1]).expect("case json");
+			watchdog::begin_seed(0, 20.0);
 			let (viol, kind) = replay_case(&r);
+			watchdog::end();
 			println!("D 0 {}", json!({"kind": kind, "violations": viol}));
 			0
 		}
@@ -1020,30 +1248,73 @@ fn machinery(msg: &str) -> ! {
 	std::process::exit(2)
 }
 
-/// Runs one unit in a worker; on a crash or a hang the unit is re-run in trace mode so that the
-/// offending decode is identified.
+fn timeout_what(cpu: f64, wall: f64) -> String {
+	format!("no answer: the decode was still running after {cpu:.1} s of CPU ({wall:.1} s wall) and was killed — work not bounded by input length and limits")
+}
+
+/// Runs one unit in a worker. Violations are streamed (`V` lines) and survive the worker. A decode
+/// that exceeds its CPU horizon is reported by the worker's own watchdog (`T` line, exit code 17) =
+/// class `timeout` with exactly that decode; a crash (signal) is attributed by a traced re-run.
 fn drive_unit(u: &Unit, tier: &str, unit_horizon: Duration) -> UnitOut {
 	let mut result: Option<UnitOut> = None;
+	let mut streamed: Vec<Violation> = Vec::new();
+	let mut timeout: Option<Value> = None;
 	let end = spawn_worker(&["unit".into(), tier.into(), u.id.to_string()], unit_horizon, unit_horizon, |l| {
 		if let Some(j) = l.strip_prefix("R ") {
 			if let Ok(v) = serde_json::from_str::<Value>(j) {
 				result = Some(unit_out_from_json(&v));
 			}
+		} else if let Some(j) = l.strip_prefix("V ") {
+			if let Ok(x) = serde_json::from_str::<Value>(j) {
+				streamed.push(Violation { class: x["class"].as_str().unwrap_or("").to_owned(), what: x["what"].as_str().unwrap_or("").to_owned(), replay: x["replay"].clone() });
+			}
+		} else if let Some(j) = l.strip_prefix("T ") {
+			timeout = serde_json::from_str::<Value>(j).ok();
 		}
 	});
+	let text = gen::schema_text(&u.schema);
 	match (end, result) {
 		(End::Exited(0), Some(r)) => r,
+		(End::Exited(EXIT_TIMEOUT), _) if timeout.is_some() => {
+			let t = timeout.unwrap();
+			let targets = targets_of(u);
+			let tname = targets.get(t["target"].as_u64().unwrap_or(0) as usize).map(|t| t.name()).unwrap_or_else(|| "?".into());
+			let path = path_of_code(t["path"].as_u64().unwrap_or(0));
+			let cfg = Cfg { depth: t["limits"][0].as_u64().unwrap_or(0) as usize, seq: t["limits"][1].as_u64().unwrap_or(0) as usize, alloc: t["limits"][2].as_u64().unwrap_or(0) as usize };
+			let bytes = t["bytes"].as_str().unwrap_or("").to_owned();
+			let mut o = UnitOut::default();
+			o.violations = streamed;
+			o.violations.push(Violation {
+				class: "timeout".into(),
+				what: format!("schema {text} bytes [{bytes}] target {tname} path {} limits {}: {}", path.name(), cfg.json(), timeout_what(t["cpu_s"].as_f64().unwrap_or(0.0), t["wall_s"].as_f64().unwrap_or(0.0))),
+				replay: json!({"check": "C04", "kind": "node", "unit": u.id, "schema": text, "bytes": bytes, "target": tname, "path": path.name(), "limits": cfg.json(), "class": "timeout"}),
+			});
+			o.cover.impl_runs = 1;
+			o.cover.evaluations = 1;
+			o.cover.states = 1;
+			o.cover.count("decodes_killed_by_the_per_decode_horizon", 1);
+			o.cover.caps.push(format!("unit {} schema {text}: stopped at a decode that exceeded its CPU horizon, tree not completed", u.id));
+			o
+		}
 		(End::Exited(c), _) if c != 0 => machinery(&format!("C04 worker for unit {} exited with code {c}", u.id)),
 		(End::Exited(_), None) => machinery(&format!("C04 worker for unit {} returned no result", u.id)),
+		(End::TimedOut, _) => {
+			// no single decode exceeded its CPU horizon (the worker's watchdog would have said so): the
+			// unit as a whole did not get enough CPU within its horizon. A cap, not a verdict.
+			let mut o = UnitOut::default();
+			o.violations = streamed;
+			o.cover.caps.push(format!("unit {} schema {text}: unit horizon of {} s exceeded without any single decode exceeding its CPU horizon (machine load); results of this unit dropped", u.id, unit_horizon.as_secs()));
+			o
+		}
 		(end, _) => {
-			// crash or hang: trace mode, 10 s per decode
+			// crash: trace mode identifies the decode
 			let how = match &end {
 				End::Signaled(s) => format!("worker died ({s})"),
-				_ => "worker exceeded its horizon".to_owned(),
+				_ => "worker failed".to_owned(),
 			};
 			let mut last: Option<String> = None;
 			let mut result: Option<UnitOut> = None;
-			let end2 = spawn_worker(&["unit".into(), tier.into(), u.id.to_string(), "trace".into()], Duration::from_secs(10), unit_horizon * 4, |l| {
+			let end2 = spawn_worker(&["unit".into(), tier.into(), u.id.to_string(), "trace".into()], Duration::from_secs(DECODE_WALL_HORIZON_S as u64 + 30), unit_horizon * 4, |l| {
 				if let Some(s) = l.strip_prefix("S ") {
 					last = Some(s.to_owned());
 				} else if let Some(j) = l.strip_prefix("R ") {
@@ -1054,35 +1325,26 @@ fn drive_unit(u: &Unit, tier: &str, unit_horizon: Duration) -> UnitOut {
 			});
 			match (end2, last) {
 				(End::Exited(0), _) if result.is_some() => machinery(&format!("C04 unit {}: {how}, but the traced re-run completed: not attributable to a case", u.id)),
-				(e2, Some(case)) => {
-					let class = match e2 {
-						End::Signaled(_) => "abort",
-						End::TimedOut => "hang",
-						End::Exited(_) => machinery(&format!("C04 unit {}: traced worker exited abnormally", u.id)),
-					};
+				(End::Signaled(sig), Some(case)) => {
 					let parts: Vec<&str> = case.split(" | ").collect();
-					let text = gen::schema_text(&u.schema);
 					let mut o = UnitOut::default();
-					let observed = match e2 {
-						End::Signaled(s) => format!("the process was killed ({s}: stack overflow / allocation failure / abort)"),
-						_ => "no answer within 10 s".to_owned(),
-					};
+					o.violations = streamed;
 					o.violations.push(Violation {
-						class: class.into(),
-						what: format!("schema {text} bytes [{}] target {} path {} limits {}: {observed}", parts[0], parts.get(1).unwrap_or(&""), parts.get(2).unwrap_or(&""), parts.get(3).unwrap_or(&"")),
-						replay: json!({"check": "C04", "kind": "node", "unit": u.id, "schema": text, "bytes": parts[0], "target": parts.get(1), "path": parts.get(2), "limits": serde_json::from_str::<Value>(parts.get(3).unwrap_or(&"null")).unwrap_or(Value::Null), "class": class}),
+						class: "abort".into(),
+						what: format!("schema {text} bytes [{}] target {} path {} limits {}: the process was killed ({sig}: stack overflow / allocation failure / abort)", parts[0], parts.get(1).unwrap_or(&""), parts.get(2).unwrap_or(&""), parts.get(3).unwrap_or(&"")),
+						replay: json!({"check": "C04", "kind": "node", "unit": u.id, "schema": text, "bytes": parts[0], "target": parts.get(1), "path": parts.get(2), "limits": serde_json::from_str::<Value>(parts.get(3).unwrap_or(&"null")).unwrap_or(Value::Null), "class": "abort"}),
 					});
 					o.cover.caps.push(format!("unit {}: aborted at a crashing case, tree not completed", u.id));
 					o
 				}
-				(_, None) => machinery(&format!("C04 unit {}: {how}, and the traced re-run produced no case", u.id)),
+				_ => machinery(&format!("C04 unit {}: {how}, and the traced re-run did not reproduce it", u.id)),
 			}
 		}
 	}
 }
 
 /// Runs the seeds in workers, restarting after a crashing/hanging seed.
-fn drive_seeds(tier: &str, rep: &mut Report, per_seed: Duration) {
+fn drive_seeds(tier: &str, rep: &mut Report, per_seed: Duration, lane: usize, lanes: usize) {
 	let thorough = tier == "thorough";
 	let all = seeds(thorough);
 	let mut from = 0usize;
@@ -1090,7 +1352,8 @@ fn drive_seeds(tier: &str, rep: &mut Report, per_seed: Duration) {
 	while from < all.len() {
 		let mut current: Option<usize> = None;
 		let mut results: Vec<(usize, Value)> = Vec::new();
-		let end = spawn_worker(&["seeds".into(), tier.into(), from.to_string()], per_seed, per_seed * (all.len() as u32 + 1), |l| {
+		let mut timed_out_seed: Option<Value> = None;
+		let end = spawn_worker(&["seeds".into(), tier.into(), from.to_string(), lane.to_string(), lanes.to_string()], per_seed, per_seed * (all.len() as u32 + 1), |l| {
 			if let Some(i) = l.strip_prefix("S ") {
 				current = i.trim().parse().ok();
 			} else if let Some(rest) = l.strip_prefix("D ") {
@@ -1098,6 +1361,8 @@ fn drive_seeds(tier: &str, rep: &mut Report, per_seed: Duration) {
 				if let (Ok(i), Ok(v)) = (i.parse::<usize>(), serde_json::from_str::<Value>(j)) {
 					results.push((i, v));
 				}
+			} else if let Some(j) = l.strip_prefix("T ") {
+				timed_out_seed = serde_json::from_str::<Value>(j).ok();
 			}
 		});
 		for (i, v) in &results {
@@ -1115,6 +1380,15 @@ fn drive_seeds(tier: &str, rep: &mut Report, per_seed: Duration) {
 		}
 		match end {
 			End::Exited(0) => break,
+			End::Exited(EXIT_TIMEOUT) if timed_out_seed.is_some() => {
+				let t = timed_out_seed.unwrap();
+				let i = t["seed"].as_u64().unwrap_or(0) as usize;
+				rep.violation("timeout", format!("{}: {}", seed_what(&all[i]), timeout_what(t["cpu_s"].as_f64().unwrap_or(0.0), t["wall_s"].as_f64().unwrap_or(0.0))), json!({"check": "C04", "kind": "seed", "tier": tier, "seed": i, "class": "timeout"}));
+				rep.cover.count("seeds_run", 1);
+				rep.cover.count("decodes_killed_by_the_per_decode_horizon", 1);
+				rep.cover.impl_runs += 1;
+				from = i + 1;
+			}
 			End::Exited(c) => machinery(&format!("C04 seed worker exited with code {c}")),
 			End::Signaled(_) | End::TimedOut => {
 				let Some(i) = current.filter(|i| !done[*i]) else { machinery("C04 seed worker died between cases") };
@@ -1139,7 +1413,7 @@ pub fn run(rep: &mut Report) {
 	let us = units(thorough);
 	let p = params(thorough, us.iter().filter(|u| !u.hostile).count());
 	rep.rule = format!(
-		"Explicit-state search over the decoder's input-consumption tree, one tree per schema: {} hostile schemas (zero-byte elements, recursion, length-prefixed and decimal leaves; node cap {}) + the shared alphabet Σ_S level {} ({} schemas; node cap {}). Root = empty input; a prefix p is expanded by every byte of Σ_B = {{00,01,02,03,04,7f,80,81,fe,ff}} iff decoding p over a 1-byte-refill reader under the generous limits ended in Err after the reader had reported end of input, for at least one target (inside a fixed-size read the alphabet shrinks to {{00,ff}}); depth <= {} bytes. Every node is decoded under limits G=(allowed_depth 64, max_seq_size 1000, max_alloc_size 64) on slice / 1-byte-refill reader / one-refill reader with targets deserialize_any observation, IgnoredAny, non-allocating fold (+ a typed Rust target — borrowed struct, Vec, BTreeMap, recursive Box list, &str, &[u8], Decimal — for {} hostile schemas), and with one limit tightened at a time: allowed_depth in {{0,1,2}}, max_seq_size in {{0,1,3}} (fold, deserialize_any, IgnoredAny and the typed target — among them a struct that lacks a nested-array field), max_alloc_size in {{0,1,8}}. Oracle per decode: returns (no panic; abort/hang = death of the worker subprocess, attributed by a traced re-run); if the reference model accepts the input as a datum whose nesting / longest array or map / largest slice-delivered field (reader, >= 2 bytes, i.e. not already buffered) exceeds the configured limit then Err; Ok on the slice path with a non-allocating target => 0 heap allocations; peak live heap <= {} + max_alloc_size + |input| (non-allocating targets; 64·|input| for typed ones); fill_buf/read calls <= 4·|input| + 2·(values delivered; max_seq_size·|input| when unknown) + 16. Plus {} literal adversarial seeds under the crate's default limits (i64::MIN block counts, 2^62 / i64::MAX / negative lengths, 10^9 zero-byte elements at and above max_seq_size, 10^5-deep recursion, depth ladders around 64, default 512 MiB allocation cap). Non-trivial: nodes of >= 2 bytes, nodes where a limit must reject a model-valid datum, and seeds; tree nodes are pairwise distinct (schema, byte string) pairs by construction.",
+		"Explicit-state search over the decoder's input-consumption tree, one tree per schema: {} hostile schemas (zero-byte elements, recursion, length-prefixed and decimal leaves; node cap {}) + the shared alphabet Σ_S level {} ({} schemas; node cap {}). Root = empty input; a prefix p is expanded by every byte of Σ_B = {{00,01,02,03,04,7f,80,81,fe,ff}} iff decoding p over a 1-byte-refill reader under the generous limits ended in Err after the reader had reported end of input, for at least one target (inside a fixed-size read the alphabet shrinks to {{00,ff}}); depth <= {} bytes. Every node is decoded under limits G=(allowed_depth 64, max_seq_size 1000, max_alloc_size 64) on slice / 1-byte-refill reader / one-refill reader with targets deserialize_any observation, IgnoredAny, non-allocating fold (+ a typed Rust target — borrowed struct, Vec, BTreeMap, recursive Box list, &str, &[u8], Decimal — for {} hostile schemas), and with one limit tightened at a time: allowed_depth in {{0,1,2}}, max_seq_size in {{0,1,3}} (fold, deserialize_any, IgnoredAny and the typed target — among them a struct that lacks a nested-array field), max_alloc_size in {{0,1,8}}. Oracle per decode: returns (no panic; abort = death of the worker subprocess, attributed by a traced re-run; a decode still running after 2 s of CPU is killed by the worker's own watchdog and reported as class timeout with exactly that decode, one that returns after more than 0.05 s of CPU as work-not-bounded); if the reference model accepts the input as a datum whose nesting / longest array or map / largest slice-delivered field (reader, >= 2 bytes, i.e. not already buffered) exceeds the configured limit then Err; Ok on the slice path with a non-allocating target => 0 heap allocations; peak live heap <= {} + max_alloc_size + |input| (non-allocating targets; 64·|input| for typed ones); fill_buf/read calls <= 4·|input| + 2·(values delivered; max_seq_size·|input| when unknown) + 16. Plus {} literal adversarial seeds under the crate's default limits (i64::MIN block counts, 2^62 / i64::MAX / negative lengths, 10^9 zero-byte elements at and above max_seq_size, 10^5-deep recursion, depth ladders around 64, default 512 MiB allocation cap). Non-trivial: nodes of >= 2 bytes, nodes where a limit must reject a model-valid datum, and seeds; tree nodes are pairwise distinct (schema, byte string) pairs by construction.",
 		us.iter().filter(|u| u.hostile).count(),
 		p.cap_hostile,
 		if thorough { 2 } else { 1 },
@@ -1158,8 +1432,22 @@ pub fn run(rep: &mut Report) {
 	// seeds run concurrently with the trees
 	let (seed_rep, results): (Report, Vec<UnitOut>) = rayon::join(
 		|| {
+			// the seeds are dealt to 4 lanes of workers (a broken decoder makes many of them run into
+			// their CPU horizon one after the other)
+			const LANES: usize = 4;
+			let parts: Vec<Report> = (0..LANES)
+				.into_par_iter()
+				.map(|lane| {
+					let mut r = Report::new("C04", &tier);
+					drive_seeds(&tier, &mut r, Duration::from_secs(900), lane, LANES);
+					r
+				})
+				.collect();
 			let mut r = Report::new("C04", &tier);
-			drive_seeds(&tier, &mut r, Duration::from_secs(120));
+			for p in parts {
+				r.cover.merge(p.cover);
+				r.violations.extend(p.violations);
+			}
 			r
 		},
 		|| us.par_iter().map(|u| drive_unit(u, &tier, unit_horizon)).collect(),
@@ -1205,7 +1493,7 @@ pub fn replay(v: &Value) -> i32 {
 	let r = &v["replay"];
 	println!("replaying {}", v["what"].as_str().unwrap_or(""));
 	let mut result: Option<Value> = None;
-	let end = spawn_worker(&["case".into(), r.to_string()], Duration::from_secs(30), Duration::from_secs(60), |l| {
+	let end = spawn_worker(&["case".into(), r.to_string()], Duration::from_secs(300), Duration::from_secs(300), |l| {
 		if let Some(rest) = l.strip_prefix("D 0 ") {
 			result = serde_json::from_str(rest).ok();
 		}
@@ -1228,8 +1516,8 @@ pub fn replay(v: &Value) -> i32 {
 			println!("  [abort] the worker process was killed ({s})");
 			1
 		}
-		(End::TimedOut, _) => {
-			println!("  [hang] no answer within 30 s");
+		(End::TimedOut, _) | (End::Exited(EXIT_TIMEOUT), _) => {
+			println!("  [timeout] the decode was still running when its CPU horizon expired");
 			1
 		}
 		_ => {
